@@ -7,7 +7,9 @@ B(k) == [kind |-> "batch", air |-> "", k |-> k, n |-> 0]
 BasesNext == <<U("fib", 0, 8), U("fib", 0, 16), U("lin", 123457, 8), U("lin", 7654321, 8), U("mul", 0, 8), B(1)>>
 BasesAgg  == <<U("fib", 0, 8), U("lin", 123457, 8), U("lin", 7654321, 8), U("mul", 0, 8), B(1), B(2)>>
 BasesMix  == <<U("fib", 0, 8), U("lin", 123457, 8), U("lin", 7654321, 8), B(1)>>
+\* prep: a uni-STARK child over an AIR WITH a preprocessed column (RecursionInput::UniStark { preprocessed_commit: Some(..) })
 BasesOne  == <<U("fib", 0, 8), B(1)>>
+BasesPrep == <<U("prep", 0, 8), U("prepcur", 0, 8)>>
 BasesQN == <<U("fib", 0, 8), U("fib", 0, 16), U("lin", 123457, 8), U("lin", 7654321, 8)>>
 BasesQA == <<U("lin", 123457, 8), U("lin", 7654321, 8), B(1)>>
 PS1 == <<"default">>
